@@ -27,7 +27,7 @@ def run(ctx):
         raise Infra("ClientRoundTrip without the release rule (Sloppy) does not violate OwnResponse: the model is vacuous")
     ctx.extra["sloppy_model_violates"] = True
 
-    ntr = ctx.pick(40, 600)
+    ntr = ctx.pick(40, 400)
     recs = ctx.go_test(".", ["c04_", "c18_fakeconn"], "^TestVerifC04RoundTrip$", timeout=2400,
                        env={"VERIF_C04_TRACES": ntr})
     ctx.absorb(recs)
